@@ -12,3 +12,5 @@ CONSTANTS
   MayPause = TRUE
   StopOnAckFailure = TRUE
   RetryAfterPause = TRUE
+  MayStale = FALSE
+  ExitFlushes = TRUE
